@@ -8,7 +8,9 @@ Open Scope N_scope.
 (* _encode_resume_token / _decode_resume_token: layout, header length, width, overrun test, empty tail = None *)
 Lemma resume_layout_tie :
   gen_resume_layout = resume_layout /\ gen_dec_header_len = dec_header_len /\ gen_dec_width = W32
-  /\ gen_dec_overrun_cmp = dec_overrun_cmp /\ gen_dec_empty_tail_is_none = true.
+  /\ gen_dec_overrun_cmp = dec_overrun_cmp /\ gen_dec_empty_tail_is_none = true
+  (* _init_http_stream_session re-raises an error found in the first response: parse_init's FErr arm *)
+  /\ gen_first_response_error_raises = true.
 Proof. repeat split; reflexivity. Qed.
 
 (* the producer loop's budget test: `max_bytes is not None and <sink>.tell() < max_bytes` *)
